@@ -220,6 +220,9 @@ def check_status_file(rep, ctx):
                         return a.e.as_string()
             return None
         direct = [e for e in wr if name_of(e.rargs[0]) == "status.tag"]
+        # any other way of putting bytes under the final name (copy onto it, create / open it for writing) is a rewrite in place as well
+        direct += [e for e in ev if e.kind == "call" and re.search(r"(^|::)copy$", e.callee) and len(e.rargs) > 1 and name_of(e.rargs[1]) == "status.tag"]
+        direct += [e for e in ev if e.kind == "call" and re.search(r"File::create$|OpenOptions::open$", e.callee) and name_of(e.rargs[-1]) == "status.tag"]
         rep.add(Query("write_provision_state path %d: status.tag is never written in place" % i, "holds" if not direct else "violated", "", 0, "mirsym", key="C16.file.no-direct-write", reproduced=None))
         for e in rn:
             n += 1
@@ -467,6 +470,40 @@ def check_state_internal_unit(rep, ctx):
     rep.add(Query("witness: get_provision_state_internal explored", "witness-hit" if n else "witness-missed", "%d" % n, 0, "mirsym"))
 
 
+def check_query_client(rep, ctx):
+    """'at or after the instant the query names': the query side names its instant on EVERY poll it sends (a poll without the tick
+    header is answered for instant 0, i.e. "finished" as soon as any finish tick exists, whenever that finish happened)"""
+    try:
+        w = ctx.method("ProvisionQuery", "get_current_provision_status") + "::{closure#0}"
+    except Inconclusive as ex:
+        rep.add(Query("ProvisionQuery::get_current_provision_status located", "inconclusive", str(ex), 0, "mirsym", key="C16.query-client"))
+        return
+    TICK = None
+    e2 = ctx.engine(); e2._reset([])
+    try:
+        v = e2.eval_const("common::constants::TIME_TICK_HEADER")
+        TICK = v.e.as_string() if isinstance(v, StrV) else None
+    except Exception:
+        TICK = None
+    fidx = ctx.field("ProvisionQuery", "query_time_tick")
+    eng = ctx.engine(loop_bound=1)
+    n = 0
+    for i, r in enumerate(eng.explore(w)):
+        sends = [e for e in r.events if e.kind == "call" and re.search(r"hyper_client::get$|(^|::)get$|send_request$", e.callee) and len(e.rargs) >= 2]
+        if not sends:
+            continue
+        n += 1
+        env = origin(r.args[0])
+        hdrs = origin(sends[0].rargs[1])
+        ins = [e for e in r.events if e.kind == "call" and e.callee.endswith("HashMap::insert") and same_origin(e.rargs[0], hdrs) and isinstance(origin(e.rargs[1]), StrV)
+               and origin(e.rargs[1]).e.as_string().lower() == (TICK or "x-ms-azure-time_tick").lower() and r.events.index(e) < r.events.index(sends[0])]
+        ok = len(ins) == 1 and derives(ins[0].rargs[2], env, r.events) and ("f.%d" % fidx) in repr(ins[0].rargs[2])
+        rep.add(Query("provision query client path %d: the poll carries the time-tick header with the instant of this query" % i, "holds" if ok else "violated",
+                      "tick header inserts before the request: %d" % len(ins), 0, "mirsym", key="C16.query-client", reproduced=None))
+    rep.functions_encoded.append(w)
+    rep.add(Query("witness: the provision query client sends a poll", "witness-hit" if n else "witness-missed", "%d" % n, 0, "mirsym"))
+
+
 def check(rep, tier, seed):
     ctx = Ctx("agent")
     rep.extra["mir_dump"] = {"cache_hit": ctx.dump.cache_hit, "tree_hash": ctx.dump.hash, "seconds": round(ctx.dump.seconds, 1)}
@@ -474,6 +511,7 @@ def check(rep, tier, seed):
     seqs = task_sequences(rep, ctx)
     check_message(rep, ctx)
     check_state_internal_unit(rep, ctx)
+    check_query_client(rep, ctx)
     check_status_file(rep, ctx)
     zero = check_query_formula(rep, ctx)
     schedule_search(rep, sem, seqs, tier)
